@@ -3,6 +3,7 @@ from ..gens import *
 
 ID = "C05"
 LEAN_MODULE = "Ucfg.Props.C05"
+LEVEL_TEXT = 'Normalisation theorems for primitives and for combining duplicate definitions; representation erasure and partial flattenings are decided by the correspondence over 8 Go representations with permuted map orders (partial).'
 CORRESPONDENCE = "Normalize.newFrom/normValue/setField/combineV ~ ucfg.NewFrom"
 RULE = ("plain data trees (depth <= 5, 5-key alphabet, nil/empty containers) in up to 8 Go representations of the same tree "
         "(map[string]interface{}, map[interface{}]interface{}, typed maps/slices, [N]T, pointers, reflect.StructOf structs with tags, "
